@@ -151,6 +151,9 @@ class C13(Prop):
                 lines = lines + stepped_iteration(rnd, lines, 'c09')
             if i % 3 == 1:
                 lines = lines + ['check c13-lockstep f', 'q f getindex']
+                # a second filtration with another index set, iterated in step with the first
+                lines = lines + ['! copy gg f ?', '! setindex gg %s' % idx_tok(rnd.choice([0.25, 1, 3, -2])), '! add gg [ ] sGG -',
+                                 'check lockstep2 f gg', 'q f getindex', 'q f indices 0']
             if i % 3 == 2:
                 # at the end (the model has no bulk deletion on filtrations: implementation and oracle only): the
                 # inherited bulk operations at some index -- they too remove whole stars across all indices
